@@ -11,12 +11,26 @@
 #   - an exception rule '!x.p' wins over everything and yields its parent p;
 #   - a host matched by no rule has no valid suffix (no implicit '*' rule).
 #
+def normalise_rule(rule):
+    """What a tolerant reader might make of a rule: trimmed, lower-cased, without
+    a trailing dot."""
+    return rule.strip().lower().rstrip(".")
+
+
 class RuleSet(object):
-    def __init__(self, rules):
+    def __init__(self, rules, _alt=True):
         self.normal = set()
         self.wild = set()  # parents p of rules '*.p'
         self.exc = set()  # full tuples x.p of rules '!x.p'
         self.n = 0
+        # A malformed rule ('a.b.' with a trailing dot, stray upper case or blanks)
+        # has no defined meaning: an implementation may take it literally (it then
+        # matches nothing) or normalise it. Hosts whose answer depends on that
+        # choice are not judged (see ambiguous()).
+        self.alt = None
+        rules = list(rules)
+        if _alt and any(normalise_rule(x) != x for x in rules):
+            self.alt = RuleSet([normalise_rule(x) for x in rules], _alt=False)
         for rule in rules:
             self.n += 1
             # rules are taken literally, as the list gives them
@@ -50,7 +64,11 @@ class RuleSet(object):
         for k in range(n, 1, -1):
             if labels[n - k :] in self.exc:
                 hits += 1
-        return hits > 1
+        if hits > 1:
+            return True
+        if self.alt is not None and self.alt.suffix_length(labels) != self.suffix_length(labels):
+            return True  # the answer depends on how a malformed rule is read
+        return False
 
     def split(self, labels):
         k = self.suffix_length(labels)
